@@ -101,11 +101,12 @@ fn watchdog_thread(stop: &'static AtomicBool, id: &'static str) {
             let t = WATCH[w].load(Ordering::Relaxed);
             if t != 0 && now - t > 20_000 {
                 let run = WATCH_RUN[w].load(Ordering::Relaxed);
+                let idx = WATCH_IDX[w].load(Ordering::Relaxed);
                 let path = format!("{}/replays/{}-hang-{}.json", verif_root(), id, run);
                 let _ = std::fs::create_dir_all(format!("{}/replays", verif_root()));
                 let _ = std::fs::write(
                     &path,
-                    serde_json::to_string_pretty(&json!({"property": "C03", "check": id, "run_seed": run, "signature": "hang", "note": "a call into the library did not return within 20 s of wall-clock time; re-run with this run_seed"})).unwrap(),
+                    serde_json::to_string_pretty(&json!({"property": "C03", "check": id, "run_seed": run, "run_index": idx, "signature": "hang", "note": "a call into the library did not return within 20 s of wall-clock time; re-run with this run_seed"})).unwrap(),
                 );
                 println!("VIOLATION property=C03 replay={}", path);
                 std::process::exit(1);
@@ -145,6 +146,7 @@ pub fn run_check(def: &'static CheckDef, thorough: bool, seed: u64, budget_s: f6
                     let si = pick_scen(def, i);
                     let rs = run_seed(seed, i);
                     WATCH_RUN[wi].store(rs, Ordering::Relaxed);
+                    WATCH_IDX[wi].store(i, Ordering::Relaxed);
                     let mut tape = Tape::record(rs);
                     let out = (def.scens[si].run)(&mut tape, def.props, thorough, false);
                     local.merge(&out.stats);
